@@ -510,6 +510,8 @@ func (rv *ReportView) Pairs() []string {
 // nor `/`, one that ends in `=`, and one bound to the NAME of a built-in alias (`apiExt`), which the profile's declaration overrides
 var altNamespaces = []struct{ alias, ns string }{
 	{"inv", "urn:example:inventory:"}, {"w_", "http://ex.org/w?k="}, {"apiExt", "http://ex.org/own-ext#"},
+	// percent-encoded characters (legal in an IRI; a `%` is a verb to every formatting function)
+	{"pc", "http://ex.org/caf%C3%A9#"}, {"sp", "http://ex.org/my%20vocab/%d%s/"},
 }
 
 // SchemelessNS: a namespace written without a scheme (alias `sl`).  A JSON-LD document cannot carry a predicate of it (a key that is
